@@ -50,6 +50,7 @@ import (
 	"go/types"
 	"os"
 	"runtime"
+	"runtime/debug"
 	"slices"
 	"strings"
 
@@ -839,6 +840,11 @@ func runFrame(fr *frame) {
 		}
 		if fr.i.mode&DisableRecover != 0 {
 			panic(r)
+		}
+		if os.Getenv("SYMGO_STACK") != "" {
+			if _, ok := r.(runtime.Error); ok {
+				fmt.Fprintf(os.Stderr, "host stack for %v:\n%s\n", r, debug.Stack())
+			}
 		}
 		fr.i.ps.notePanicSite(fr)
 		fr.panicking = true
